@@ -389,16 +389,30 @@ func (s *sgen) statement() string {
 		og, ig := s.someExisting(2), s.someExisting(2)
 		tpl := s.template(bs, true)
 		s.intent = " xty=5 xog=" + hxList(og) + " xg=" + hxList(ig) + " xcc=" + s.lastXcc + " xc=" + s.lastXc
-		return fmt.Sprintf("construct { %s } into %s from %s where { %s };", tpl, strings.Join(og, ", "),
-			strings.Join(ig, ", "), w)
+		return fmt.Sprintf("construct { %s } into %s from %s where { %s }%s;", tpl, strings.Join(og, ", "),
+			strings.Join(ig, ", "), w, s.having(bs))
 	default:
 		w, bs := s.where()
 		og, ig := s.someExisting(2), s.someExisting(2)
 		tpl := s.template(bs, false)
 		s.intent = " xty=6 xog=" + hxList(og) + " xg=" + hxList(ig) + " xcc=" + s.lastXcc + " xc=" + s.lastXc
-		return fmt.Sprintf("deconstruct { %s } in %s from %s where { %s };", tpl, strings.Join(og, ", "),
-			strings.Join(ig, ", "), w)
+		return fmt.Sprintf("deconstruct { %s } in %s from %s where { %s }%s;", tpl, strings.Join(og, ", "),
+			strings.Join(ig, ", "), w, s.having(bs))
 	}
+}
+
+// having: sometimes a HAVING clause over the bindings of the WHERE pattern (it sees the whole solution, not only the
+// bindings the template uses).
+func (s *sgen) having(kinds map[string]byte) string {
+	if len(kinds) == 0 || !s.r.chance(1, 4) {
+		return ""
+	}
+	var bs []string
+	for b := range kinds {
+		bs = append(bs, b)
+	}
+	sort.Strings(bs)
+	return " having " + s.q.havingExpr(bs, 1)
 }
 
 func cmdStmts(args []string) error {
